@@ -128,6 +128,8 @@ def canon(res):
 def check(ctx, case):
 	import numpy as np
 	kind = case['kind']
+	if kind == 'construct':
+		return check_construct(ctx, case)
 	if kind == 'get':
 		sigs = case['sigs']
 		cont = make_container(case['cont'], sigs, dt=case.get('dt'))
@@ -176,6 +178,8 @@ def check(ctx, case):
 		ref = [list(s) for s in case['sigs']]
 		errs = []
 		ops_w = []
+		n0 = len(sl)
+		snaps = [sl[:], sl[0:n0], sl[-n0:] if n0 else sl[:], sl[list(range(n0))]]
 		for n, op in enumerate(case['ops']):
 			try:
 				if op[0] == 's':
@@ -193,6 +197,10 @@ def check(ctx, case):
 		pf = []
 		if len(sl) != len(final):
 			pf.append('len() inconsistent with iteration')
+		for sn in snaps:
+			if [np.asarray(x).tolist() for x in sn] != ref:
+				pf.append('a sub-collection obtained by slicing / indexing changed when the original list-backed collection was mutated (aliasing)')
+				break
 		return [f'c20.mut {natlists(case["sigs"])} {"|".join(ops_w) if ops_w else "_"} {natlists(final)} {nats(errs)}'], pf
 	if kind == 'eq':
 		c1 = make_container(case['c1'], case['s1'], k=case['k1'], prefix=case['p1'], dt=case.get('dt1'))
@@ -203,6 +211,26 @@ def check(ctx, case):
 		return [f'c20.eq {case["k1"]} {hx(case["p1"].encode())} {natlists(case["s1"])} {case["k2"]} {hx(case["p2"].encode())} '
 		        f'{natlists(case["s2"])} {"1" if r else "0"}'], pf
 	raise ValueError(kind)
+
+
+def check_construct(ctx, case):
+	"""SignatureArray / SignatureList built from a sequence of signatures held in different integer types"""
+	import numpy as np
+	from gambit.kmers import KmerSpec
+	from gambit.sigs.base import SignatureArray, SignatureList
+	kspec = KmerSpec(32, 'ATGAC')
+	arrs = [np.array(s, dtype=dt) for s, dt in zip(case['sigs'], case['dts'])]
+	pf = []
+	lines = []
+	for cls in (SignatureArray, SignatureList):
+		try:
+			c = cls(arrs, kspec, dtype=np.dtype(case['dtype']) if case.get('dtype') else None)
+			got = [np.asarray(x).astype(object).tolist() for x in c]
+			real = 'many:' + natlists(got)
+		except Exception as e:
+			real = 'exc:' + exc_kind(e)
+		lines.append(f'c20.get {natlists(case["sigs"])} slice:~:~:~ {real}')
+	return lines, pf
 
 
 def contents(rng, n):
@@ -322,6 +350,17 @@ def run(ctx):
 			sigs = contents(rng, n)
 			l = [rng.randint(-n, n - 1) for _ in range(rng.randint(1, 5))]
 			sub({'kind': 'get', 'cont': rng.choice(['array', 'list']), 'sigs': sigs, 'idx': {'t': 'ints', 'l': l, 'form': rng.choice(['array.q', 'array.b', 'array.i', 'array.l', 'memoryview'])}}, 'buffer-index')
+		# construction from mixed-type signature sequences with values up to 2^64-1 (k = 32)
+		for j in range(ctx.q(200, 2000)):
+			n = rng.randint(1, 5)
+			sigs, dts = [], []
+			for _ in range(n):
+				dt = rng.choice(['u8', 'u8', 'i8', 'i4', 'u4', 'u2'])
+				top = {'u8': 2 ** 64 - 1, 'i8': 2 ** 63 - 1, 'i4': 2 ** 31 - 1, 'u4': 2 ** 32 - 1, 'u2': 2 ** 16 - 1}[dt]
+				vals = sorted({rng.choice([top, top - 1, top - rng.randrange(1000), 2 ** 53 + 1, 2 ** 53 + rng.randrange(1000), rng.randrange(top + 1)]) % (top + 1) for _ in range(rng.randint(0, 4))})
+				sigs.append(vals); dts.append(dt)
+			# the collection's type is that of the first signature unless given: it must be able to hold every value (documented; unsafe casting)
+			sub({'kind': 'construct', 'sigs': sigs, 'dts': dts, 'dtype': rng.choice([None, 'u8']) if dts[0] == 'u8' else 'u8'}, 'construct-mixed-types')
 		# mutation histories
 		for j in range(ctx.q(300, 4000)):
 			if not ctx.time_left(0.9):
